@@ -4,6 +4,7 @@ package main
 // contracts; emits proof obligations.
 
 import (
+	"regexp"
 	"fmt"
 	"go/ast"
 	"go/constant"
@@ -43,6 +44,8 @@ type Obligation struct {
 	firstIter []Term  // equalities saying that the loops the path is inside of are in their first iteration
 	leftLoops bool    // the path ran through a loop and left it (its effect is a havoc constrained by the invariant)
 }
+
+var localRefRe = regexp.MustCompile(`\blocal\.([A-Za-z_][A-Za-z0-9_]*)`)
 
 type loopEq struct {
 	li  *loopInfo
@@ -319,6 +322,50 @@ func (x *Exec) verify() (err error) {
 	x.covers = append(x.covers, cov)
 	fr.retK = nil
 	x.analyzeLoops(fn)
+	// clauses that name a local variable (chaninv-local, ghostinit, nsent(local.x), ...) check nothing once
+	// the variable is renamed: refuse instead of silently counting zero sends
+	var localNames = map[string]bool{}
+	var collectLocals func(f *ssa.Function)
+	collectLocals = func(f *ssa.Function) {
+		for _, p := range f.Params {
+			localNames[p.Name()] = true
+		}
+		for _, fv := range f.FreeVars {
+			localNames[fv.Name()] = true
+		}
+		for _, b := range f.Blocks {
+			for _, in := range b.Instrs {
+				if dr, ok := in.(*ssa.DebugRef); ok {
+					if id, ok := dr.Expr.(*ast.Ident); ok {
+						localNames[id.Name] = true
+					}
+				}
+			}
+		}
+		for _, af := range f.AnonFuncs {
+			collectLocals(af)
+		}
+	}
+	collectLocals(fn)
+	var needed []string
+	for n := range x.spec.GhostInit {
+		needed = append(needed, n)
+	}
+	for n := range x.spec.LocalChanInv {
+		needed = append(needed, n)
+	}
+	for _, cs := range [][]*Clause{x.spec.Req, x.spec.Ens, x.spec.Checks} {
+		for _, c := range cs {
+			for _, m := range localRefRe.FindAllStringSubmatch(c.Text, -1) {
+				needed = append(needed, m[1])
+			}
+		}
+	}
+	for _, n := range needed {
+		if !localNames[n] {
+			return specErr{fmt.Sprintf("contract of %s names the local variable %q, which does not exist (renamed?): the clause would check nothing", x.fname, n)}
+		}
+	}
 	x.enterBlock(st, fn.Blocks[0], nil)
 	// vacuity guard: an oncall clause whose label matches no call on any explored path checks nothing
 	for label := range x.spec.OnCall {
@@ -493,6 +540,61 @@ func (x *Exec) loopEnv(st *State, fr *Frame, li *loopInfo) *Env {
 			vars[phi.Comment] = v
 		}
 	}
+	// carried(T): the unique loop-carried variable of type T, whatever its name
+	cnt := map[string]int{}
+	for _, in := range li.head.Instrs {
+		phi, ok := in.(*ssa.Phi)
+		if !ok {
+			break
+		}
+		if v, ok := fr.regs[phi]; ok && phi.Comment != "rangeindex" {
+			k := "carried:" + typeKey(phi.Type())
+			cnt[k]++
+			vars[k] = v
+		}
+	}
+	for k, n := range cnt {
+		if n != 1 {
+			delete(vars, k)
+		}
+	}
+	if _, ok := vars["it_"]; !ok {
+		// an index loop `for i := 0; i < len(s); i++ { ... s[i] ... }` written instead of a range loop:
+		// the counter plays the part of it_ and the slice it indexes that of rng_, so that contracts
+		// survive a conversion between the two loop forms
+		var cand *ssa.Phi
+		var slice ssa.Value
+		n := 0
+		for _, in := range li.head.Instrs {
+			phi, ok := in.(*ssa.Phi)
+			if !ok {
+				break
+			}
+			if b, ok := phi.Type().Underlying().(*types.Basic); !ok || b.Info()&types.IsInteger == 0 {
+				continue
+			}
+			for b := range li.body {
+				for _, bi := range b.Instrs {
+					if ia, ok := bi.(*ssa.IndexAddr); ok && ia.Index == ssa.Value(phi) {
+						if _, isSlice := ia.X.Type().Underlying().(*types.Slice); isSlice {
+							if cand != phi {
+								n++
+							}
+							cand, slice = phi, ia.X
+						}
+					}
+				}
+			}
+		}
+		if n == 1 {
+			if v, ok := fr.regs[cand]; ok {
+				vars["it_"] = v
+				if rv, ok := fr.regs[slice]; ok {
+					vars["rng_"] = rv
+				}
+			}
+		}
+	}
 	return &Env{x: x, st: st, old: x.entry, vars: vars, loopSnap: st.loopSnaps[li.head], iterSnap: st.iterSnaps[li.head]}
 }
 
@@ -607,7 +709,12 @@ func (x *Exec) havocLoop(st *State, fr *Frame, li *loopInfo) {
 				cs := x.calleeSpec(in.Common(), fr)
 				switch {
 				case cs == nil:
-					if !x.isBenignBuiltin(in.Common()) {
+					if sf, ok := in.Common().Value.(*ssa.Function); ok && !in.Common().IsInvoke() && sf.Blocks != nil &&
+						(sf.Pkg == x.prog.spkg || (sf.Pkg == nil && sf.Parent() != nil)) {
+						// an uncontracted in-package helper is inlined at the call; whatever it writes is
+						// checked against the function's own modifies clause there
+						nonlocal = true
+					} else if !x.isBenignBuiltin(in.Common()) {
 						all = true
 					}
 				case cs.ModAll:
